@@ -468,6 +468,10 @@ impl World {
         if ev.get("in").and_then(|x| x.as_bool()).unwrap_or(false) {
             b = b.with_traffic_type(TrafficType::Inbound);
         }
+        if let Some(k) = ev.get("kind").and_then(|x| x.as_u64()) {
+            use sentinel_core::base::ResourceType as RT;
+            b = b.with_resource_type([RT::Common, RT::Web, RT::RPC, RT::APIGateway, RT::DBSQL, RT::Cache, RT::MQ][k as usize % 7]);
+        }
         if let Some(a) = ev.get("args").and_then(|x| x.as_array()) {
             b = b.with_args(Some(a.iter().map(|x| x.as_str().unwrap().to_string()).collect()));
         }
